@@ -6,6 +6,7 @@ import SmsVerif.Driver.Gsm7
 import SmsVerif.Driver.Split
 import SmsVerif.Driver.MsgId
 import SmsVerif.Driver.Tlv
+import SmsVerif.Driver.Framing
 open SmsVerif SmsVerif.Driver
 
 def dispatch (line : String) : String :=
@@ -16,6 +17,7 @@ def dispatch (line : String) : String :=
   | "dec" :: toks => (handleDec toks).getD "bad-op"
   | "decalloc" :: toks => (handleDecAlloc toks).getD "bad-op"
   | ["pdus"] => handlePdus
+  | "frame" :: toks => (handleFrame toks).getD "bad-op"
   | "tlv" :: toks => (handleTlv toks).getD "bad-op"
   | "msgid" :: toks => (handleMsgId toks).getD "bad-op"
   | "split" :: toks => (handleSplit toks).getD "bad-op"
